@@ -100,6 +100,7 @@ def run(idx, rep, tier):
     c06.header_index_sequences(idx, rep, "R6")
     runtime_fresh(idx, rep, "R6")
     printers_agree(idx, rep, "R5")
+    result_printouts(idx, rep, "R5")
     # print-mode: no-default takes the stdout printer away and nothing else: every other printer still gets every entry (C15.R7)
     from . import c15
     c15.r7(idx, K.as_rule(rep, "R5"))
@@ -262,10 +263,12 @@ def r6(idx, rep):
     ft = idx.method("PrintParser", "_transform_reference")
     fd = idx.method("PrintParser", "_ref_from_dict")
     rep.analysed(fd, ft)
-    data = {"v": {"k": 0, "z": 7, "e": ""}, "lst": [0, 5, None], "s": "text", "n": 0, "f": False}
+    # (the keys of a tracking variable are the texts the csvpath saw: a tally over a numeric column has the keys "3", "10", not 3, 10)
+    data = {"v": {"k": 0, "z": 7, "e": ""}, "lst": [0, 5, None], "s": "text", "n": 0, "f": False, "t": {"3": 2, "10": 1, "x": 4}}
     bad = None
     for name, tracking, want in (("v", "k", 0), ("v", "z", 7), ("v", "e", ""), ("v", None, {"k": 0, "z": 7, "e": ""}), ("lst", "0", 0), ("lst", "1", 5), ("lst", "length", 3),
-                                 ("lst", None, [0, 5, None]), ("s", None, "text"), ("n", None, 0), ("f", None, False), ("missing", None, "missing")):
+                                 ("lst", None, [0, 5, None]), ("s", None, "text"), ("n", None, 0), ("f", None, False), ("missing", None, "missing"),
+                                 ("t", "3", 2), ("t", "10", 1), ("t", "x", 4)):
         it = Interp(idx, types={"self": "PrintParser"}, unknown_calls="residual")
         ps = it.run_all(ft, args={"ref": {"data": dict(data), "name": [name, tracking], "data_type": "variables"}})
         if len(ps) != 1 or ps[0].result[0] != "return" or ps[0].result[1] != want or type(ps[0].result[1]) is not type(want):
@@ -357,3 +360,28 @@ def printers_agree(idx, rep, rid):
             bad = bad or (f"{cls}.print('S') (resolved to {idx.method(cls, 'print').qual}) does {a}; {cls}.print_to(None, 'S') (resolved to {idx.method(cls, 'print_to').qual}) does {alts[0]}: "
                           "an unnamed print() reaches this printer differently from print_to — entries go to the wrong place or are counted differently")
     rep.check(bad is None and len(classes) >= 3, rid, "csvpath/util/printer.py::print(s) is print_to(<no name>, s) for every printer", bad or f"{classes}", "csvpath/util/printer.py")
+
+
+def result_printouts(idx, rep, rid):
+    """the Result is the printer that feeds printouts.txt: what print() / print_to(name) hand it is what get_printouts() gives back — every
+    entry, once, in order, under its own name (unnamed entries under 'default')"""
+    fp = idx.method("Result", "print")
+    ft = idx.method("Result", "print_to")
+    fg = idx.method("Result", "get_printouts")
+    rep.analysed(fp, ft, fg)
+    it = Interp(idx, types={"self": "Result"}, unknown_calls="residual", inline={f"Result.{p_}" for p_ in idx.cls("Result").properties}, inline_all={"Result"})
+
+    def program(i):
+        i.call_function(fp, {"__pos__": ["a"]}, "self")
+        i.call_function(ft, {"__pos__": ["audit", "b"]}, "self")
+        i.call_function(fp, {"__pos__": [""]}, "self")
+        i.call_function(ft, {"__pos__": ["audit", "b"]}, "self")
+        i.call_function(fp, {"__pos__": ["c"]}, "self")
+        return i.call_function(fg, {"__pos__": []}, "self")
+
+    st = dict(K.ctor_literals(idx, "Result"))
+    ps = it.run_program(program, st)
+    want = {"default": ["a", "", "c"], "audit": ["b", "b"]}
+    ok = len(ps) == 1 and ps[0].result == ("return", want)
+    rep.check(ok, rid, f"{ft.file}::Result keeps every printed entry under its printer name", f"after print('a'), print_to('audit','b'), print(''), print_to('audit','b'), print('c'): "
+              f"get_printouts() is {[p.result for p in ps][:2]}, documented {want}", K.where(ft, ft.node))
